@@ -53,6 +53,9 @@ LoadImport(m) == /\ phase = "linking" /\ m \in pending /\ m \notin present
 Finish == /\ phase = "linking" /\ pending \subseteq present /\ phase' = "done" /\ UNCHANGED <<dag, clash, order, todo, present, loads, funcs, pending>>
 Next == HostAdd \/ StartLink \/ (\E m \in Mods : LoadImport(m)) \/ Finish
 Spec == Init /\ [][Next]_vars
+\* liveness (checked under weak fairness of the linker's steps): every link attempt ends - done or rejected -, no import is waited for forever
+FairSpec == Spec /\ WF_vars(Next)
+Terminates == <>(phase \in {"done", "rejected"})
 
 Want == Closure(dag, Range(order))
 HasClash == \E a, b \in Want : a # b /\ Defs(clash)[a] = Defs(clash)[b]
